@@ -141,7 +141,7 @@ theorem psV3Publish_sendok (c : C) (p : Pkt) : SendOK c (psV3Publish c p) := by
 
 theorem psV5PublishTail_sendok (c : C) (p : Pkt) (rel : Option Nat) :
     SendOK c (psV5PublishTail c p rel) := by
-  by_cases h1 : p.qos > 0 ∧ c.s.sendMax.isSome = true <;> by_cases h2 : c.s.sendCount ≥ 65535 <;>
+  by_cases h1 : p.qos > 0 ∧ c.s.sendMax.isSome = true <;> by_cases h2 : c.s.sendCount ≥ 4294967295 <;>
     simp only [psV5PublishTail, h1, h2, if_true, if_false] <;> sendok_cases
 
 theorem psV5PublishAlias_sendok (c : C) (p : Pkt) (rel : Option Nat) (v : Bool) :
